@@ -136,6 +136,12 @@ def reqresp_oracle(ix: Index, scn: dict) -> list[Violation]:
             how = "?" if op is None else ("result" if op.ok else ("cancelled" if op.cancelled else str((op.err or {}).get("cls"))))
             out.append(Violation("timer-left", f"after-{how}", f"{ev[4]['armed']} request timeout timer(s) armed but only {ev[4]['running']} call(s) running, right after {ev[4]['actor']} ended ({how})"))
             break
+    for ev in ix.h:
+        if ev[3] == "post_op_timers" and ev[4].get("waiters", 0) > ev[4]["running"]:
+            op = next((o for o in ix.ops if o.actor == ev[4]["actor"] and o.i == ev[4]["i"]), None)
+            how = "?" if op is None else ("result" if op.ok else ("cancelled" if op.cancelled else str((op.err or {}).get("cls"))))
+            out.append(Violation("waiter-left", f"after-{how}", f"{ev[4]['waiters']} waiter(s) registered for connection loss but only {ev[4]['running']} call(s) running, right after {ev[4]['actor']} ended ({how})"))
+            break
     # leak audit
     a = ix.audit
     if a is not None:
